@@ -7,7 +7,7 @@ percent-decode once, match again): no loop, at most a few hops, ends in a match 
 """
 from __future__ import annotations
 
-from urllib.parse import parse_qsl, unquote, urlsplit
+from urllib.parse import parse_qsl, quote, unquote, urlsplit
 
 from ..models import routing_ref as R
 from ..monitors.reach import Reach, opt
@@ -184,6 +184,7 @@ def check_map(rec, rng, rules, strict, merge, rd, script, scheme, sub):
     strs = [R.rule_str(r) for r in rules]
     rules = [r for r in all_rules if r["ws"] == ws]  # what the reference sees: rules that can answer this adapter
     sp = script.rstrip("/")
+    spq = quote(sp, safe="/")  # the script root as it appears in a URL
     base_case = {"rules": strs, "rule_opts": [[r.get("strict"), r.get("merge"), r.get("defaults"), r.get("alias"), r["methods"], r["ws"]] for r in all_rules],
                  "strict": strict, "merge": merge, "redirect_defaults": rd, "script": script, "scheme": scheme, "subdomain": sub}
     for p in paths:
@@ -203,7 +204,7 @@ def check_map(rec, rng, rules, strict, merge, rd, script, scheme, sub):
             # the adapter made from the request environ, as a WSGI application does it: scheme (websocket upgrade
             # included), host, subdomain, script root, path and query all come from there
             env_ = {"REQUEST_METHOD": method, "wsgi.url_scheme": {"ws": "http", "wss": "https"}.get(scheme, scheme), "SERVER_NAME": "srv.internal", "SERVER_PORT": "8000",
-                    "HTTP_HOST": f"{sub}.h.com" if sub else "h.com", "SCRIPT_NAME": script.rstrip("/"), "PATH_INFO": (p if p.startswith("/") else "/" + p).encode("utf-8").decode("latin-1"),
+                    "HTTP_HOST": f"{sub}.h.com" if sub else "h.com", "SCRIPT_NAME": script.rstrip("/").encode("utf-8").decode("latin-1"), "PATH_INFO": (p if p.startswith("/") else "/" + p).encode("utf-8").decode("latin-1"),
                     "QUERY_STRING": q or ""}
             if ws:
                 env_["HTTP_CONNECTION"], env_["HTTP_UPGRADE"] = "keep-alive, Upgrade", "WebSocket"
@@ -247,10 +248,10 @@ def check_map(rec, rng, rules, strict, merge, rd, script, scheme, sub):
         if u.scheme != scheme or u.netloc != host:
             rec.violation("C12/redirect-off-bound-host", f"{url!r} (bound {scheme}://{host}); {case}", case, monitor="redirect-target")
             continue
-        if not u.path.startswith(sp + "/"):
+        if not unquote(u.path).startswith(sp + "/"):  # (the script root may be spelled as in an IRI or percent-encoded)
             rec.violation("C12/redirect-outside-script-root", f"{url!r} script {script!r}; {case}", case, monitor="redirect-target")
             continue
-        if not url.isascii():
+        if not url.isascii() and sp.isascii():
             rec.violation("C12/redirect-url-not-ascii", f"{url!r}; {case}", case, monitor="redirect-target")
             continue
         if qkind == "str" and u.query != q:
@@ -266,7 +267,7 @@ def check_map(rec, rng, rules, strict, merge, rd, script, scheme, sub):
             continue
         # classify the kind of this redirect (for the evidence)
         pp = "/" + p.lstrip("/")
-        tgt = unquote(u.path[len(sp):])
+        tgt = unquote(u.path)[len(sp):]
         if tgt == pp + "/":
             kind = "slash"
         elif "//" in pp and R.merge(pp) in (tgt, tgt.rstrip("/")):
@@ -281,16 +282,16 @@ def check_map(rec, rng, rules, strict, merge, rd, script, scheme, sub):
         # follow
         seen, cur, hops, final = {url}, url, 0, None
         bad = None
-        first_target = unquote(u.path[len(sp):])
+        first_target = unquote(u.path)[len(sp):]
         hop_kinds = ["slash" if first_target == pp + "/" else "merge" if R.merge(pp).rstrip("/") == R.merge(first_target).rstrip("/") else "canonical"]
         while hops < 8:
-            path = unquote(urlsplit(cur).path[len(sp):])
+            path = unquote(urlsplit(cur).path)[len(sp):]
             try:
                 final = A.match(path, method=method, **mkw)
                 break
             except RequestRedirect as e2:
                 hops += 1
-                nxt_path = unquote(urlsplit(e2.new_url).path[len(sp):])
+                nxt_path = unquote(urlsplit(e2.new_url).path)[len(sp):]
                 hk = "slash" if nxt_path == path + "/" else "merge" if R.merge(path).rstrip("/") == R.merge(nxt_path).rstrip("/") else "canonical"
                 eps_here = {r["ep"] for r in rules if R.ok_method(r, method) and any((a_ := R.admits(r, path, st_)) and a_[0] == "match" for st_ in (True, False))}
                 if hk == "canonical" and hop_kinds and hop_kinds[-1] == "canonical" and len(eps_here) > 1:
@@ -345,7 +346,7 @@ def check_map(rec, rng, rules, strict, merge, rd, script, scheme, sub):
             # C03's subject; the redirect is wrong only if no rule admitting the target carries the original denotation
             at_target = set()
             for hop_url in seen:
-                tpath = unquote(urlsplit(hop_url).path[len(sp):])
+                tpath = unquote(urlsplit(hop_url).path)[len(sp):]
                 for r in rules:
                     if R.ok_method(r, method):
                         for stt in (True, False):
@@ -593,7 +594,7 @@ def run(shard, rec, rng):
     late_rule_histories(rec, rng, 60 if shard["_tier"] == "quick" else 600)
     for _ in range(cfg["maps"]):
         rules = gen_rules(rng)
-        check_map(rec, rng, rules, rng.random() < 0.6, rng.random() < 0.6, rng.random() < 0.8, rng.choice(["/", "/app", "/app/", "/a/b"]),
+        check_map(rec, rng, rules, rng.random() < 0.6, rng.random() < 0.6, rng.random() < 0.8, rng.choice(["/", "/app", "/app/", "/a/b", "/caf\u00e9", "/m n/"]),
                   rng.choice(["http", "https", "http", "https", "ws", "wss"]), rng.choice([None, None, "www"]))
     reach.finish()
 
